@@ -85,6 +85,10 @@ def port_graph(rng, depth):
         if outs and rng.random() < 0.6:
             edges.append((m, rng.choice(outs)))
     rng.shuffle(edges)
+    ports = [k for k, v in nodes.items() if v["k"] in ("Input", "Output")]
+    if ports and names and rng.random() < 0.15:
+        # ONE Input / Output object registered under a second name as well: two children, two ports
+        nodes[names.pop()] = {"k": "__alias__", "of": rng.choice(ports)}
     return {"k": "NIRGraph", "nodes": nodes, "edges": edges}
 
 
@@ -101,6 +105,9 @@ def gen(rng, tier):
             rec, _ = G.erase(rng, cg)
         else:
             rec = G.wild_graph(rng, 6)
+        if rng.random() < 0.08:
+            # a graph whose ONLY child is another graph and that has no ports of its own (a wrapper): it advertises nothing
+            rec = {"k": "NIRGraph", "nodes": {rng.choice(["model", "net", "m"]): port_graph(rng, rng.choice([0, 1]))}, "edges": []}
         hist = [rng.choice(ops) for _ in range(rng.choice([0, 1, 1, 2, 3, 6]))]
         cases.append({"kind": "hist", "recipe": V.enc_recipe(rec), "hist": hist})
     # graphs created by from_list (the auto-inserted Input/Output must be mirrored as well)
